@@ -114,6 +114,18 @@ def catalogue(rng, tier='quick'):
         add('EqualConstantBig', [('a', w)], [('r', 1)], lambda t, i, o, ev2=ev2: P.EqualConstant(t, 'x', i['a'], ev2, o['r']))
         add('RegWideE', [('d', w), ('e', W(2, 3))], [('q', w)], lambda t, i, o: P.Reg(t, 'x', i['d'], o['q'], enable=i['e']))
         add('ConcatEmpty', [('a', 1)], [('r', wr), ('p', 1)], lambda t, i, o: (P.ConcatenateMSBF(t, 'x', [], o['r']), P.Buf(t, 'y', i['a'], o['p'])))
+        # blocks with a hand-written verilogBody(): memories (elaborated into word nets by Model/VSem.v) and the UART message sequencer (a ROM)
+        aw, mw = W(1, 3), W(1, 8)
+        mem_ins = [('ra', aw), ('wa', aw), ('we', 1), ('wd', mw)]
+        add('SyncMem', mem_ins, [('rd', mw)], lambda t, i, o: P.SynchronousMemory(t, 'x', i['ra'], i['wa'], i['we'], o['rd'], i['wd']))
+        add('AsyncMem', mem_ins, [('rd', mw)], lambda t, i, o: P.AsynchronousMemory(t, 'x', i['ra'], i['wa'], i['we'], o['rd'], i['wd']))
+        add('DualMem', mem_ins + [('rb', aw), ('wb', aw), ('web', 1), ('wdb', mw)], [('rd', mw), ('rdb', mw)],
+            lambda t, i, o: P.DualPortSynchronousMemory(t, 'x', i['ra'], i['wa'], i['we'], o['rd'], i['wd'], i['rb'], i['wb'], i['web'], o['rdb'], i['wdb']))
+        msg = ''.join(chr(rng.randint(33, 126)) for _ in range(rng.choice([1, 2, 3, 4, 5, 8])))
+        def msgseq(t, i, o, msg=msg):
+            from py4hw.logic.protocol.uart.sequencer import MsgSequencer
+            return MsgSequencer(t, 'x', i['ready'], o['valid'], o['v'], msg)
+        add('MsgSequencer', [('ready', 1)], [('valid', 1), ('v', 8)], msgseq)
     return out
 
 
